@@ -69,6 +69,8 @@ def _jobs(tier, b):
     for sh in b["shapes"]:
         for leaf in b["leaves"]:
             kfs = ["own", "default", "tilde"] if W.catalogue()[leaf][0]["k"] == "Secure" or "secure" in leaf else ["own"]
+            if sh == "nested" and len(kfs) > 1:
+                kfs = kfs + ["deep"]        # a key file of its own two levels down, none on the level in between
             for kf in kfs:
                 out.append({"name": "%s/%s/%s" % (sh, leaf, kf), "shape": sh, "leaf": leaf, "depth": b["depth"], "tier": tier, "keyfile": kf})
     for sh in ("nested+late", "cfglist+late"):
@@ -376,6 +378,10 @@ class Monitor:
             self.kfname = "tilde"
         else:
             self.kfname = keyfile
+        self.deepkey = None
+        if keyfile == "deep":
+            self.keyfile = "own"
+            self.deepkey = os.path.join(tmp, "deep.key")
         self.built = W.Built(self.spec)
         self.done = set()
 
@@ -393,6 +399,8 @@ class Monitor:
         cfg = self.built.schema()
         if self.keyfile == "own":
             cfg._key_filename = self.keypath
+        if self.deepkey:
+            cfg.sub.deep._key_filename = self.deepkey
         return cfg
 
     def state(self, ctx, w, hist):
@@ -400,6 +408,8 @@ class Monitor:
         cfg = w.cfg
         if self.keyfile == "own":
             cfg._key_filename = self.keypath
+        if self.deepkey:
+            cfg.sub.deep._key_filename = self.deepkey
         try:
             cfg.validate()
         except Exception:  # noqa
@@ -471,6 +481,8 @@ class Monitor:
                     data3 = src.dumps(fmt)
                     dst = self.built.schema()
                     dst._key_filename = self.keypath + ".second"
+                    if self.deepkey:
+                        dst.sub.deep._key_filename = self.deepkey
                     dst.loads(data3, fmt)
                     diffs = compare(orig, cc.asdict(dst), self.spec)
                     if diffs:
